@@ -1209,6 +1209,10 @@ class RouteBuilderValidator(Validator[list[Any]]):
         # Parse prefix if present (for INET-family routes)
         if self.schema.prefix_parser:
             ipmask = self.schema.prefix_parser(tokeniser)
+            if ipmask.afi != self.afi:
+                # 'announce ipv4 unicast 2001:db8::/32 ...' was sent as the IPv4 prefix 32.1.13.184/32, and
+                # 'announce ipv6 unicast 10.0.0.0/24 ...' as a00::/24
+                raise ValueError(f"the prefix '{ipmask}' is not an {self.afi} prefix")
             settings.cidr = CIDR.create_cidr(ipmask.pack_ip(), ipmask.mask)
             settings.afi = self.afi
             settings.safi = self.safi
